@@ -188,7 +188,7 @@ from collections.abc import Mapping  # noqa: E402
 
 def as_bool(x):
     """True / False for bool-like scalars, None otherwise"""
-    if isinstance(x, bool) or type(x).__name__ == "bool_":
+    if isinstance(x, bool) or (type(x).__module__ == "numpy" and type(x).__name__ in ("bool", "bool_")):
         return bool(x)
     return None
 
